@@ -104,12 +104,20 @@ func collisionKey(p string) string {
 }
 
 // runsUnder returns the commands under which closure fn executes.
-func runsUnder(t *tables.Tree, fn *ssa.Function) []string {
+func runsUnder(c *Ctx, t *tables.Tree, fn *ssa.Function) []string {
 	top := fn
 	var out []string
 	for n, cmd := range t.Cmds {
+		// the Run closure itself, or a helper of the package it calls
+		// (directly or through other helpers)
+		steps := map[*ssa.Function]bool{}
+		if cmd.Run != nil {
+			for _, g := range withSteps(c, cmd.Run, 4) {
+				steps[g] = true
+			}
+		}
 		for f := top; f != nil; f = f.Parent() {
-			if cmd.Run == f {
+			if cmd.Run == f || (cmd.Run != nil && steps[f]) {
 				out = append(out, n)
 				for d, ts := range t.Delegates {
 					for _, x := range ts {
@@ -129,7 +137,7 @@ func flagReadRules(c *Ctx, rule string, t *tables.Tree, only map[string]bool) in
 	r := c.R
 	n := 0
 	for _, rd := range t.Reads {
-		under := runsUnder(t, rd.Fn)
+		under := runsUnder(c, t, rd.Fn)
 		if len(under) == 0 {
 			continue // read outside any command's Run (helper); nothing to resolve against
 		}
